@@ -1734,6 +1734,13 @@ func (w *ResponseWriter) WriteMsg(res *dns.Msg) error {
 			clamped := w.cache.ecsPolicy.ClampScope(respScope, w.clientScope)
 			scopedKey := CacheKey{Question: q, CD: res.CheckingDisabled, Scope: clamped}.Hash()
 			w.cache.store.SetFromResponseScoped(scopedKey, res, clamped, cutUntil, cutKey)
+		} else if ecs.DeclaresScope(res) {
+			// A non-zero SCOPE that cannot be interpreted: the answer is
+			// tailored to somebody. Keep it to the audience that asked
+			// (the forwarded prefix, floor applied), never under the shared key.
+			clamped := w.cache.ecsPolicy.ClampScope(w.clientScope, w.clientScope)
+			scopedKey := CacheKey{Question: q, CD: res.CheckingDisabled, Scope: clamped}.Hash()
+			w.cache.store.SetFromResponseScoped(scopedKey, res, clamped, cutUntil, cutKey)
 		} else {
 			// No SCOPE in response (or SCOPE=0): authority says
 			// "global"; cache shared so future non-ECS clients hit.
